@@ -432,6 +432,58 @@ def _task_lookup(task):
                 if not (got == want and type(got) is type(want)):
                     t.violation({"kind": "discrete-lookup"}, {"form": "DiscreteLookup", "criteria": crit, "value": value, "A": a, "B": b},
                                 expected=want, observed=repr(got))
+    # lookup LISTS as their consumers use them (a binary and a string field sized by the list): the value of the FIRST entry whose criteria
+    # all hold; entries after it are not consulted (here some of them refer to a parameter Z that the packet does not carry)
+    from space_packet_parser.xtce import encodings
+    allc = crits + [(("Z", "==", "1"),), (("A", ">=", "0"), ("Z", "<", "5"))]
+    lists = [pair for pair in itertools.permutations(range(len(allc)), 2)] + [(0, 1, 2), (2, 5, 0), (1, 6, 3), (3, 4, 5), (5, 0, 1), (4, 2, 6)]
+    for idxs in lists:
+        values = [8 * (j + 1) if (j + sum(idxs)) % 4 else 0 for j in range(len(idxs))]     # a matching entry may also yield 0 bits
+        for a, b in itertools.product(range(3), repeat=2):
+            env = {"A": a, "B": b}
+            want = "no-match"
+            for ci, val in zip(idxs, values):
+                crit = allc[ci]
+                if any(p not in env for p, _, _ in crit):
+                    # evaluable up to the first comparison that fails, in order; anything else: not judged
+                    ok_so_far = True
+                    for p, op, lit in crit:
+                        if p not in env:
+                            want = "unjudged" if ok_so_far else want
+                            break
+                        if not interp.relate(op, env[p], int(lit)):
+                            ok_so_far = False
+                            break
+                    if want == "unjudged":
+                        break
+                    continue
+                if all(interp.relate(op, env[p], int(lit)) for p, op, lit in crit):
+                    want = val
+                    break
+            if want == "unjudged":
+                continue
+            for form in ("binary", "string"):
+                dls = [comparisons.DiscreteLookup([comparisons.Comparison(lit, p, operator=op) for p, op, lit in allc[ci]], val)
+                       for ci, val in zip(idxs, values)]
+                enc = (encodings.BinaryDataEncoding(size_discrete_lookup_list=dls) if form == "binary"
+                       else encodings.StringDataEncoding(encoding="US-ASCII", discrete_lookup_length=dls))
+                pkt = CCSDSPacket(raw_data=b"ABCDEFGHIJ", A=common.IntParameter(a), B=common.IntParameter(b))
+                t.evals += 1
+                try:
+                    v = enc.parse_value(pkt)
+                    got = pkt.raw_data.pos
+                    raw = getattr(v, "raw_value", v)
+                    if len(bytes(raw)) * 8 != got:
+                        got = f"cursor {got} but {len(bytes(raw))} byte(s) returned"
+                except Exception as e:  # noqa: BLE001
+                    got = f"raised:{type(e).__name__}"
+                t.nontrivial += 1
+                t.outcomes[f"lookup-list:{'hit' if want != 'no-match' else 'miss'}"] += 1
+                ok = (isinstance(got, str) and got.startswith("raised")) if want == "no-match" else got == want
+                if not ok:
+                    t.violation({"kind": "discrete-lookup-list", "consumer": form, "want": "failure" if want == "no-match" else "value"},
+                                {"form": "DiscreteLookupList", "consumer": form, "entries": [[list(map(list, allc[ci])), val] for ci, val in zip(idxs, values)], "A": a, "B": b},
+                                expected=want, observed=repr(got), note="a sized field must take the value of the first entry whose criteria all hold")
     return t
 
 
